@@ -90,8 +90,10 @@ def gen(ctx, extra_schemas=None, hot=()):
     (more buffers and every wrap-around count for them: the search for a concrete failing input)"""
     r = ctx.rng
     blocks, expect_ok = [], []
-    nschema = 40 if ctx.quick() else 600
-    nbuf = 6 if ctx.quick() else 12
+    # thorough: ~10x the quick volume; the protocol lines and both output streams (with access lists) are held in memory: 600 x 12 needed > 40 GB,
+    # 160 x 8 17 GB
+    nschema = 40 if ctx.quick() else 100
+    nbuf = 6 if ctx.quick() else 8
     schemas = [fbenc.random_schema(r, nested=(i % 3 == 2)) for i in range(nschema)] + hand_schemas()
     nbase = len(schemas)
     schemas += (extra_schemas or [])
@@ -180,7 +182,7 @@ def generated_stage(ctx, flatcc):
     -> (descriptors, hot indices, translator failures, differences, wf failures, stats)"""
     import schemagen, schemamodel, genverifier as gv
     r = ctx.rng
-    n = 24 if ctx.quick() else 300
+    n = 24 if ctx.quick() else 120      # each translated schema also gets its own block of buffers in the differential run (memory)
     descs, hot, ties, diffs, wf_bad = [], set(), [], [], []
     cases = []
     for i in range(n):
